@@ -8,7 +8,14 @@
    newSession, create, recover, commit; tied to the code by the KVL cases of Corr/C07Run.v) sends only
    such sequences, for every sequence of operations respecting the API discipline (theorem 4); and
    the two composed, quantified over version-layer operation sequences (theorems 5-6).
-   Property theorems only; each is closed by [exact lemma] and followed by Print Assumptions. *)
+   The other half - the janitor checkAndCleanFiles and the deletions that do not go through the loop
+   (recoverJournal, dropFrozenMem, revert / drop of failed flushes and compactions, Transaction.discard,
+   manifest rotation, removal deferred by the file cache) - is theorems 7-12 over the model Store/Sweep.v
+   (tied to the code by the KJan / KSel / KOpen cases of Corr/C07Run.v): the janitor is exact for every
+   listing, no step ever removes a needed file, a quiescent listing is the exact set plus the named residue,
+   and one Open makes it exact.
+   Property theorems only; each is closed by [exact lemma] (11 by a three-line projection) and followed by
+   Print Assumptions. *)
 From GL Require Import Conc.RefLoop Conc.RefLoopProofs Conc.VersionLayer Conc.VersionLayerProofs
   Gen.Consts Gen.InstRefLoop.
 From GL Require Store.Sweep Store.SweepProofs Store.SweepInv Store.SweepOpen Store.SweepFiles Store.Crash.
